@@ -452,7 +452,14 @@ func genHist(id int) O {
 	capOp := func() map[string]interface{} {
 		mid := pickS(mids)
 		op := map[string]interface{}{"id": newID("op"), "to": "captain"}
-		switch rng.Intn(8) {
+		switch rng.Intn(10) {
+		case 8: // take the machine's spec away (a source that names nothing): it stops reacting, and the store has to know
+			op["update"] = map[string]interface{}{mid: map[string]interface{}{"spec": map[string]interface{}{}}}
+		case 9: // ... or a source with a name only
+			op["update"] = map[string]interface{}{mid: map[string]interface{}{"spec": map[string]interface{}{"name": "x"}}}
+			if rng.Intn(2) == 0 {
+				op["delete"] = []interface{}{mid}
+			}
 		case 6: // replace (or create with) a spec that does not compile: the operation fails
 			op["update"] = map[string]interface{}{mid: map[string]interface{}{"spec": brokenSpec()}}
 		case 7: // the same, with a state
